@@ -18,6 +18,8 @@
 #include "llvm/ADT/SmallString.h"
 using namespace llvm;
 
+// anonymous composites are keyed by file and line (two headers may declare one on the same line number)
+static std::string anonName(const DICompositeType *C){ std::string f = C->getFile() ? C->getFile()->getFilename().str() : std::string("?"); auto p=f.find_last_of('/'); if(p!=std::string::npos) f=f.substr(p+1); return "anon@"+f+":"+std::to_string(C->getLine()); }
 static std::string tyStr(Type *T){ if (auto*ST=dyn_cast<StructType>(T)) if (ST->hasName()) return "%"+ST->getName().str(); std::string s; raw_string_ostream os(s); T->print(os); return os.str(); }
 static std::string apStr(const APInt &A, bool sgn=false){ SmallString<40> S; A.toString(S,10,sgn); return std::string(S.str()); }
 
@@ -73,13 +75,13 @@ int main(int argc,char**argv){
     globals.push_back(std::move(g)); } top["globals"]=std::move(globals);
   { DebugInfoFinder DIF; DIF.processModule(*M); json::Object dits; json::Object enums; json::Object typedefs;
     for (auto *T: DIF.types()) {
-      if (auto *D = dyn_cast<DIDerivedType>(T)) { if (D->getTag()==dwarf::DW_TAG_typedef) { if (auto*C=diComposite(D->getBaseType())) { std::string cn=C->getName().str(); if(cn.empty()) cn="anon@"+std::to_string(C->getLine()); typedefs[D->getName().str()]=cn; } } continue; }
+      if (auto *D = dyn_cast<DIDerivedType>(T)) { if (D->getTag()==dwarf::DW_TAG_typedef) { if (auto*C=diComposite(D->getBaseType())) { std::string cn=C->getName().str(); if(cn.empty()) cn=anonName(C); typedefs[D->getName().str()]=cn; } } continue; }
       auto *C = dyn_cast<DICompositeType>(T); if(!C) continue;
-      std::string cn=C->getName().str(); if(cn.empty()) cn="anon@"+std::to_string(C->getLine());
+      std::string cn=C->getName().str(); if(cn.empty()) cn=anonName(C);
       if (C->getTag()==dwarf::DW_TAG_enumeration_type) { json::Object e; for (auto *El: C->getElements()) if (auto*En=dyn_cast<DIEnumerator>(El)) e[En->getName().str()]=apStr(En->getValue(),!En->isUnsigned()); enums[cn]=std::move(e); continue; }
       if (C->getTag()!=dwarf::DW_TAG_structure_type && C->getTag()!=dwarf::DW_TAG_union_type) continue;
       json::Object so; so["size"]=(int64_t)(C->getSizeInBits()/8); so["union"]= C->getTag()==dwarf::DW_TAG_union_type; json::Array ms;
-      for (auto *El: C->getElements()) if (auto*Mb=dyn_cast<DIDerivedType>(El)) if (Mb->getTag()==dwarf::DW_TAG_member) { json::Object m; m["name"]=Mb->getName().str(); m["off"]=(int64_t)(Mb->getOffsetInBits()/8); m["size"]=(int64_t)(Mb->getSizeInBits()/8); m["type"]=diTypeStr(Mb->getBaseType()); if (auto*IC=diComposite(Mb->getBaseType())) { std::string icn=IC->getName().str(); if(icn.empty()) icn="anon@"+std::to_string(IC->getLine()); if (IC->getTag()!=dwarf::DW_TAG_enumeration_type && IC->getTag()!=dwarf::DW_TAG_array_type) m["composite"]=icn; } ms.push_back(std::move(m)); }
+      for (auto *El: C->getElements()) if (auto*Mb=dyn_cast<DIDerivedType>(El)) if (Mb->getTag()==dwarf::DW_TAG_member) { json::Object m; m["name"]=Mb->getName().str(); m["off"]=(int64_t)(Mb->getOffsetInBits()/8); m["size"]=(int64_t)(Mb->getSizeInBits()/8); m["type"]=diTypeStr(Mb->getBaseType()); if (auto*IC=diComposite(Mb->getBaseType())) { std::string icn=IC->getName().str(); if(icn.empty()) icn=anonName(IC); if (IC->getTag()!=dwarf::DW_TAG_enumeration_type && IC->getTag()!=dwarf::DW_TAG_array_type) m["composite"]=icn; } ms.push_back(std::move(m)); }
       so["members"]=std::move(ms); dits[cn]=std::move(so); }
     top["ditypes"]=std::move(dits); top["enums"]=std::move(enums); top["typedefs"]=std::move(typedefs); }
 
@@ -90,7 +92,7 @@ int main(int argc,char**argv){
     fo["params"]=std::move(ps);
     if (!F.isDeclaration()){ MST.incorporateFunction(F); json::Array bs; C.ids.clear(); { int n=0; for(auto&B:F){ C.ids[&B]=n++; } int m=0; for(auto&B:F) for(auto&I:B){ if(isa<DbgInfoIntrinsic>(I)) continue; C.ids[&I]= I.getType()->isVoidTy()? -1 : m++; } }
       // arg names from dbg.declare/value are gone after mem2reg; use DILocalVariable via dbg.value
-      std::map<unsigned,std::string> argNames; for(auto&B:F) for(auto&I:B) if(auto*DV=dyn_cast<DbgVariableIntrinsic>(&I)){ auto*Var=DV->getVariable(); if(Var&&Var->getArg()) argNames[Var->getArg()-1]=Var->getName().str(); }
+      std::map<unsigned,std::string> argNames; for(auto&B:F) for(auto&I:B) if(auto*DV=dyn_cast<DbgVariableIntrinsic>(&I)){ auto*Var=DV->getVariable(); if(Var&&Var->getArg()&&!(DV->getDebugLoc()&&DV->getDebugLoc().getInlinedAt())) argNames[Var->getArg()-1]=Var->getName().str(); }
       std::map<const Value*,std::string> allocaNames; for(auto&B:F) for(auto&I:B) if(auto*DD=dyn_cast<DbgDeclareInst>(&I)){ if(auto*AI=dyn_cast_or_null<AllocaInst>(DD->getAddress())) if(DD->getVariable()) { allocaNames[AI]=DD->getVariable()->getName().str(); } }
       json::Object an; for(auto&kv:argNames) an[std::to_string(kv.first)]=kv.second; fo["argnames"]=std::move(an);
       for (auto&B:F){ json::Object bo; bo["id"]=(int64_t)C.id(&B); json::Array is;
